@@ -42,3 +42,48 @@ func rawTree(path string, depth uint64) (map[string][]byte, error) {
 }
 
 var _ common.Storage = (*fstree.FSTree)(nil)
+
+// ResetEmpty turns an open read-write shard back into an empty one without closing it: every
+// object file is removed from the write-cache (through the cache, so its accounting follows) and
+// from the blobstor FSTree, the metabase is wiped with meta.DB.Reset, and the result is verified
+// (no object file left). Cheaper than building a fresh shard; the volatile GC state is not touched.
+func (w *World) ResetEmpty() error {
+	blob, wc, err := RawObjects(w.Cfg.Dir)
+	if err != nil {
+		return err
+	}
+	for a := range wc {
+		var addr oid.Address
+		if err := addr.DecodeString(a); err != nil {
+			return err
+		}
+		if err := w.Sh.VerifSWWriteCache().Delete(addr); err != nil {
+			return fmt.Errorf("reset: write-cache delete: %w", err)
+		}
+	}
+	for a := range blob {
+		var addr oid.Address
+		if err := addr.DecodeString(a); err != nil {
+			return err
+		}
+		if err := w.FST.Delete(addr); err != nil {
+			return fmt.Errorf("reset: blobstor delete: %w", err)
+		}
+	}
+	if err := w.Sh.VerifSWMetabaseReset(); err != nil {
+		return fmt.Errorf("reset: metabase: %w", err)
+	}
+	blob, wc, err = RawObjects(w.Cfg.Dir)
+	if err != nil {
+		return err
+	}
+	if len(blob)+len(wc) != 0 {
+		return fmt.Errorf("reset: %d objects left", len(blob)+len(wc))
+	}
+	if w.Cfg.WriteCache {
+		if sz, objs, _, _ := writecacheCounters(w); sz != 0 || len(objs) != 0 {
+			return fmt.Errorf("reset: write-cache still accounts %d bytes / %d objects", sz, len(objs))
+		}
+	}
+	return nil
+}
